@@ -714,6 +714,27 @@ func genDialectSet(r *rngT, serial int) []xFile {
 			fs[i].version = fmt.Sprint(r.Intn(10)) // an explicit 0 is a version too (it overrides what the includes say)
 		}
 	}
+	if nf >= 2 && r.Intn(4) == 0 {
+		// different files whose names differ only by underscores or case (radio_link.xml / radiolink.xml), an include named almost
+		// like the converted file: they are different files, each is processed
+		j := 1 + r.Intn(nf-1)
+		o := r.Intn(nf)
+		if o == j {
+			o = 0
+		}
+		base := fs[o].name
+		switch r.Intn(3) {
+		case 0:
+			fs[j].name = strings.ReplaceAll(base, "_", "")
+		case 1:
+			fs[j].name = strings.ToUpper(base[:1]) + base[1:]
+		default:
+			fs[j].name = strings.Replace(base, "_", "__", 1)
+		}
+		if fs[j].name == base {
+			fs[j].name = base + "_"
+		}
+	}
 	// include graph: a DAG over file indexes (i includes j only if j > i), every file reachable from the root; diamonds welcome
 	for j := 1; j < nf; j++ {
 		p := r.Intn(j)
